@@ -308,6 +308,19 @@ CATALOGUE = [
      "            if self.driven_by.elastic_modulus is not None:\n                mate_elastic_modulus = self.driven_by.elastic_modulus\n            elif True:\n                mate_elastic_modulus = self.elastic_modulus\n            else:\n                raise ValueError("),
     ('c09_helical_contact_no_cos_beta', 'C09', 'gearpy/mechanical_objects/helical_gear.py',
      "self.face_width/self.__helix_angle.cos()*inverse_curvature_sum", "self.face_width*inverse_curvature_sum"),
+    # ---- C04
+    ('c04_stale_torque', 'C04', S,
+     "        self._compute_driving_torque()\n        self._compute_torque()\n        if not self.__powertrain_is_locked:\n            self._compute_angular_acceleration()\n",
+     "        if not self.__powertrain_is_locked and self.__powertrain.elements[-1].torque is not None:\n            self._compute_angular_acceleration()\n        self._compute_driving_torque()\n        self._compute_torque()\n        if not self.__powertrain_is_locked and self.__powertrain.elements[-1].angular_acceleration is None:\n            self._compute_angular_acceleration()\n"),
+    ('c04_dt_halved_in_speed_update', 'C04', S,
+     "            self.__powertrain.elements[-1].angular_acceleration * \\\n            time_discretization\n",
+     "            self.__powertrain.elements[-1].angular_acceleration * \\\n            (time_discretization/2)\n"),
+    ('c04_load_sign_flipped_in_net_torque_of_last', 'C04', S,
+     "            element.torque = element.driving_torque - element.load_torque",
+     "            element.torque = element.driving_torque - element.load_torque*(1.02 if element is self.__powertrain.elements[-1] else 1)"),
+    ('c04_position_uses_old_speed', 'C04', S,
+     "        self.__powertrain.elements[-1].angular_speed += \\\n            self.__powertrain.elements[-1].angular_acceleration * \\\n            time_discretization\n        self.__powertrain.elements[-1].angular_position += \\\n            self.__powertrain.elements[-1].angular_speed*time_discretization",
+     "        old_speed = self.__powertrain.elements[-1].angular_speed\n        self.__powertrain.elements[-1].angular_speed += \\\n            self.__powertrain.elements[-1].angular_acceleration * \\\n            time_discretization\n        self.__powertrain.elements[-1].angular_position += \\\n            (old_speed*3 - self.__powertrain.elements[-1].angular_speed*2)*time_discretization"),
 ]
 
 
